@@ -128,6 +128,24 @@ def odd_path_case(n, kind):
     return Case([inst.open_line(1, n)] + lines + [{"op": "archive.close", "h": 1, "case": n}], desc={"odd paths": kind})
 
 
+def wide_chunk_case(n, kind, flip):
+    """chunks of three digits (the library looks through chunks 0..254): paths stored in chunk 100 + c of one repository and in chunk c
+    of the next one, asked for in both orders on one handle (whatever the handle remembers about one file must not answer for another)"""
+    inst = Installation([0, 1, 2], 0)
+    stored = []
+    for (ex, chunk, tag) in [(0, 100, "a"), (1, 0, "b"), (0, 101, "c"), (1, 1, "d"), (1, 254, "e"), (2, 54, "f"), (0, 99, "g"), (0, 199, "h"), (1, 99, "i")]:
+        path = "bg/%swide/%s.lgb" % (("ex%d/" % ex) if ex else "ffxiv/", tag)
+        off = inst.place(ex, 2, chunk, 0, small_std(300 + ord(tag)))
+        inst.add_entry(ex, 2, chunk, kind, list(path.encode()), 0, off)
+        stored.append(path)
+    order = stored[::-1] if flip else stored
+    lines = []
+    for q in ("exists", "find_offset", "extract"):
+        for path in order + ["bg/ffxiv/wide/zz.lgb", "bg/ex1/wide/zz.lgb"]:
+            lines.append({"op": "archive.query", "h": 1, "case": n, "q": q, "path": list(path.encode())})
+    return Case([inst.open_line(1, n)] + lines + [{"op": "archive.close", "h": 1, "case": n}], desc={"three-digit chunks": [kind, flip]})
+
+
 def sweep_case(n, cat, ex, chunk, plat):
     """one path per data file dat0..dat7, all at the same offset, each with its own content; every query kind on each"""
     inst = Installation([0, ex], plat)
@@ -170,6 +188,8 @@ def check(run):
     for i, kind in enumerate([1, 2]):
         cases.append(far_case(base + i, kind))
         cases.append(odd_path_case(base + 2 + i, kind))
+        cases.append(wide_chunk_case(base + 4 + 2 * i, kind, False))
+        cases.append(wide_chunk_case(base + 5 + 2 * i, kind, True))
     run.rule = ("one query history per transition (layout, memo before, call, memo after) of the bounded handle model (TLC VIEW; "
                 "913 layouts of <= 2 stored paths over chunk x index/index2/both x dat, 8 probe paths incl. case twins, fallback, "
                 "unknown category; histories <= 3 calls; quick replays a seeded 6%), plus stratified random installations (all 15 "
